@@ -44,13 +44,49 @@ def compare(ref, got):
     return diffs
 
 
+_dump_cache = {}
+
+
+def line_arcs(chk, case, fname, line):
+    """arcs (src, dst, count) among the blocks that carry `line`, from the model's decoded graph after counting"""
+    key = case["gcno"][:64] + str(len(case["gcno"])) + "".join(g[:32] for g in case["gcdas"])
+    if key not in _dump_cache:
+        ex = [vlib.app("run_dump", list(bytes.fromhex(case["gcno"])), [list(bytes.fromhex(x)) for x in case["gcdas"]])]
+        _dump_cache[key] = vlib.run_model(chk.pid, "Run.ShowGcno", ex)[0]
+    out, nblocks = [], 0
+    for name, edges, blocks in _dump_cache[key]:
+        on = {i for i, (lines, _c) in enumerate(blocks) if line in lines}
+        if not on:
+            continue
+        nblocks = max(nblocks, len(on))
+        out += [(s_, d_, c_) for (s_, d_, _fl, c_) in edges if s_ in on and d_ in on]
+    return out, nblocks
+
+
+def split_known(chk, p, case, diffs):
+    """differences inside the known class C08/single-line-goto-cycles: a count difference on a line carried by >= 4
+    blocks whose internal circulation has more than one cycle decomposition (decided on the model's structure)"""
+    rest, known = [], []
+    for d in diffs:
+        if d[0] == "count":
+            arcs, nb = line_arcs(chk, case, d[1], d[2])
+            if nb >= 4 and cgen.ambiguous_cycle_count(arcs):
+                known.append(d)
+                continue
+        rest.append(d)
+    return rest, known
+
+
 def run(chk):
     chk.proofs()
     quick = chk.tier == "quick"
     n = 12 if quick else 300
     sc = vlib.scratch("c08_clang")
     progs = []
-    todo = [(f, a) for f, a in cgen.SHAPES] + [(cgen.program(chk.rng), None) for _ in range(n)]
+    ngoto = 4 if quick else 80
+    todo = [(cgen.GOTO_WITNESS[0], cgen.GOTO_WITNESS[1])] + [(f, a) for f, a in cgen.SHAPES] + \
+           [(cgen.goto_program(chk.rng), [[str(chk.rng.randrange(0, 6))]]) for _ in range(ngoto)] + \
+           [(cgen.program(chk.rng), None) for _ in range(n)]
     for i, (files, fixed_args) in enumerate(todo):
         d = os.path.join(sc, "p%d" % i)
         try:
@@ -72,7 +108,7 @@ def run(chk):
     # flow conservation and forest witness on the model state after stop (hypotheses of C08_flow_unique), per function
     fsel = [i for i in msel if i % 2 == 0]
     flow = dict(zip(fsel, vlib.run_model(chk.pid, "Run.ShowGcno",
-                                         [vlib.app("run_flow", list(bytes.fromhex(cases[i]["gcno"])), [list(bytes.fromhex(x)) for x in cases[i]["gcdas"]]) for i in fsel],
+                                         [vlib.app("run_flow2", list(bytes.fromhex(cases[i]["gcno"])), [list(bytes.fromhex(x)) for x in cases[i]["gcdas"]]) for i in fsel],
                                          shard_size=8)))
     dist = {"programs": len(progs), "flow_functions": 0, "flow_conserving_and_forest": 0, "runs": {}, "lines_compared": 0, "executed_lines": 0, "functions": 0, "functions_executed": 0,
             "multi_file": 0, "model_cases": 0, "gcno_bytes": []}
@@ -90,6 +126,13 @@ def run(chk):
             got = of_impl(G.canon_impl(r))
             diffs = compare(p["ref"], got)
             if diffs:
+                diffs, known = split_known(chk, p, cases[ci], diffs)
+                dist["known_class_diffs"] = dist.get("known_class_diffs", 0) + len(known)
+                if known and p["files"] is cgen.GOTO_WITNESS[0]:
+                    for e in vlib.known_findings("C08"):
+                        if e.get("key") == "single-line-goto-cycles":
+                            chk.known(e)
+            if diffs:
                 chk.violation(dict(rep, kind="oracle", engine="gcno", differences=diffs[:20], reference=p["ref"], impl=got,
                                    clause="per-line counts, instrumented lines and executed flags equal those of llvm-cov gcov"), tag="gcov")
             if ci in flow:
@@ -99,11 +142,11 @@ def run(chk):
                 else:
                     tag_, funs = fr
                     dist["flow_functions"] += len(funs)
-                    good = sum(1 for (_nb, _ne, cons, forest) in funs if cons and forest)
+                    good = sum(1 for (_nb, _ne, cons, forest, cons_adj, rooted) in funs if cons and forest and cons_adj and rooted)
                     dist["flow_conserving_and_forest"] += good
                     if tag_ != 0 or good != len(funs):
                         chk.violation(dict(rep, kind="oracle", engine="gcno", flow=[tag_, funs],
-                                           clause="after counting, the arc counts of a toolchain-written profile satisfy flow conservation and the ON_TREE arcs form a forest (hypotheses of C08_flow_unique)"), tag="flow")
+                                           clause="after counting, the arc counts of a toolchain-written profile satisfy flow conservation (by arc ends and by adjacency lists, sums < 2^64), the ON_TREE arcs form a forest (peel order) with a rooted witness, and block counters were the measured out-sums (hypotheses of C08_flow_unique / C08_flow_recovery)"), tag="flow")
             if ci in model:
                 rm = model[ci]
                 dist["model_cases"] += 1
